@@ -49,6 +49,21 @@ CLAIMED = {
             "At every state of a depth-5/6 exploration on two indexes: wrong-length add/append/search, appends around the maximum key of the whole database, deletes of absent ids; exact error values, byte-identical dump after each rejected call, accepted append = add.",
             "Trusted: LMDB/heed (nested transactions), roaring, rayon.",
             "DESIGN.md §3 C19"),
+    "C11": ("exploration", "E5-shape-enumerator",
+            "bounded-exhaustive enumeration of input shapes (length x byte offsets x kernel x one-hot position x value alphabet, plus dense families) against an f64 reference with a summation-order-independent tolerance",
+            "For every length 1..=300, every pair of byte offsets and every kernel the host can run (dispatch, scalar, SSE, AVX through the hook): every one-hot position with each value pair of the alphabet, plus dense families (cancellation, huge, tiny, self). Decides that every lane of every length contributes exactly once and that the reported Euclidean / Manhattan / Cosine / DotProduct values equal the definitions; end-to-end slice through QueryBuilder.",
+            "A pure kernel has no state graph: the family applies here as exhaustive enumeration of a finite shape space (exhaustive: true over that space). Values outside the alphabet are not covered. Trusted: the host's SIMD units.",
+            "DESIGN.md §3 C11"),
+    "C12": ("exploration", "E5-shape-enumerator",
+            "exhaustive enumeration of all sign patterns for small dimensions (two representation maps incl. -0.0, NaNs, infinities) and of structured families up to dimension 300; all pattern pairs for d <= 6/8",
+            "All 2^d sign patterns for d <= 12 (16 thorough) through from_slice / from_vec / to_vec / iter / len; all pairs for d <= 6 (8 thorough) and family x family beyond: distances must be the stated functions of the Hamming count only, symmetric, zero on equal patterns and strictly ordered by h; end-to-end through Writer / item_vector / queries at word-boundary dimensions.",
+            "Exhaustive over the stated pattern space; larger dimensions are covered by families, not all patterns.",
+            "DESIGN.md §3 C12"),
+    "C13": ("model_checking", "E2-cooperative-scheduler",
+            "controlled-scheduler exploration of the real code: stateful DFS over all interleavings of the atomic steps of concurrent ConcurrentNodeIds::next calls; stateless DFS over all interleavings of next() calls of the per-tree tasks of a real build",
+            "L1: 2-3 real threads x 1-3 calls x all 32 used-sets over {0..4}: every interleaving of the atomic operations (yield before each, through the cfg-guarded atomics shim), with state caching on (generator state, per-thread progress and observed values, ids handed out) and thread symmetry. L2: real incremental builds in pools of 2-3 threads, all interleavings of the tasks' next() calls, S after each.",
+            "Sequential consistency (argument for Relaxed in DESIGN.md C13). L2 yields only at next() and task boundaries. Uncontrolled multi-thread builds are added as sampled, supplementary evidence and labelled so.",
+            "DESIGN.md §3 C13"),
     "C16": ("model_checking", "E6-format-model",
             "independent format model (decoder/encoder of Appendix A) checked against the implementation: exhaustive key lattice, every explored state decoded and compared with the API, golden dumps of the reference commit replayed through the current code",
             "The model is a second implementation of the on-disk layout. Conformance in both directions: every key of the boundary lattice and every pair for ordering; every state the history explorer produces must decode under the model and agree with the public API; dumps written by the pinned reference commit for all 7 metrics must open, match the recorded items and query answers, satisfy S, and accept an incremental update.",
@@ -104,6 +119,12 @@ def main():
             {"name": "E1-transaction-explorer", "path": "/verif/harness/src/txnsys.rs",
              "serves_properties": [p for p in ALL if p in CLAIMED and CLAIMED[p][1] == "E1-transaction-explorer"],
              "kind_free_text": "the same breadth-first explorer over histories with real begin/commit/abort; every transition replays its whole history from an empty environment"},
+            {"name": "E2-cooperative-scheduler", "path": "/verif/harness/src/sched.rs",
+             "serves_properties": [p for p in ALL if p in CLAIMED and CLAIMED[p][1] == "E2-cooperative-scheduler"],
+             "kind_free_text": "token-passing scheduler over real OS threads running the real code; yield points at the hooked atomics / callbacks / API boundaries; depth-first enumeration of schedules by re-execution, optionally with state caching"},
+            {"name": "E5-shape-enumerator", "path": "/verif/harness/src/props/kernel_props.rs",
+             "serves_properties": [p for p in ALL if p in CLAIMED and CLAIMED[p][1] == "E5-shape-enumerator"],
+             "kind_free_text": "exhaustive enumeration of input shapes of the pure kernels and codecs against f64 / integer references"},
             {"name": "E6-format-model", "path": "/verif/harness/src/layout.rs",
              "serves_properties": [p for p in ALL if p in CLAIMED and CLAIMED[p][1] == "E6-format-model"],
              "kind_free_text": "independent model of the on-disk layout (current and v0.4) with conformance checks against the implementation on every explored state and on golden dumps"},
